@@ -4,6 +4,7 @@
   are in `ALV.Lemmas.C04*`.
 -/
 import ALV.Lemmas.C04Index
+import ALV.Lemmas.C04PS
 import ALV.Common.Audit
 
 set_option linter.unusedSectionVars false
@@ -84,7 +85,7 @@ theorem allzero_feedback (b as : List K) (a0 : K) (xs : List K) (hb : ∀ c ∈ 
     have hd : ∀ (cs : List K) (n : Nat), dot cs (List.replicate n (0 : K)) = 0 := by
       intro cs
       induction cs with
-      | nil => intro n; cases n <;> simp [dot, List.replicate_succ]
+      | nil => intro n; cases n <;> simp [dot]
       | cons c cs ihc => intro n; cases n <;> simp [dot, List.replicate_succ, ihc]
     simp only [fspec, dot_zero_coeffs _ _ hb, hd, sub_zero, zero_div, List.length_cons,
       List.replicate_succ]
@@ -200,6 +201,70 @@ theorem call_eq_spec (num den : Terms K) (mem : Mem K) (zero : K) (xs : List K)
   simp only [List.tail_cons]
   rw [filter_eq_spec _ _ _ _ _ _ (memory_length _ _ _) hnz]
 
+/-! ### C04.7 power-series identity (bridge to C05) -/
+
+/-- **C04.7** (`ps_identity`): zero memory, zero value 0 — the outputs satisfy
+`A(X)·Y(X) = B(X)·X(X)` in every coefficient below the input length (`A = Σ a_k X^k`, …). -/
+theorem ps_identity (b as : List K) (a0 : K) (ha0 : a0 ≠ 0) (xs : List K) (n : Nat)
+    (hn : n < xs.length) :
+    PowerSeries.coeff n (seriesOf (a0 :: as) *
+        seriesOf (evalIR (compile b (a0 :: as) 0) (memoryOf 0 as.length Mem.none) 0 xs))
+      = PowerSeries.coeff n (seriesOf b * seriesOf xs) := by
+  have h := filter_satisfies_property_zero b as a0 (memoryOf 0 as.length Mem.none) xs ha0
+    (by simp [memoryOf])
+  exact diffeq_ps b as a0 xs _ h n hn
+
+/-- **C04.7'** (`ps_identity_stream`): for an endless input `x`, with `y n` = the `n`-th output
+of the generated loop (run on the first `n+1` items — outputs never depend on later input), the
+identity `A·Y = B·X` holds in `K⟦X⟧`; since `a0 ≠ 0` makes `A` a unit, `Y = B/A · X`. -/
+theorem ps_identity_stream (b as : List K) (a0 : K) (ha0 : a0 ≠ 0) (x : Nat → K) :
+    seriesOf (a0 :: as) * PowerSeries.mk (fun n =>
+        (evalIR (compile b (a0 :: as) 0) (memoryOf 0 as.length Mem.none) 0
+          ((List.range (n + 1)).map x)).getD n 0)
+      = seriesOf b * PowerSeries.mk x := by
+  have h : (fun n => (evalIR (compile b (a0 :: as) 0) (memoryOf 0 as.length Mem.none) 0
+      ((List.range (n + 1)).map x)).getD n 0) = response b as a0 x := by
+    funext n
+    rw [filter_eq_spec_zero b as a0 _ _ (by simp [memoryOf])]
+    rfl
+  rw [h]
+  exact response_ps b as a0 ha0 x
+
+/-- outputs on a prefix of the input are a prefix of the outputs: the filter is causal and
+lazy-compatible (one output per input, never looking ahead) -/
+theorem prefix_causal (b as : List K) (a0 : K) (mem xs zs : List K) (hmem : mem.length = as.length) :
+    (evalIR (compile b (a0 :: as) 0) mem 0 (xs ++ zs)).take xs.length
+      = evalIR (compile b (a0 :: as) 0) mem 0 xs := by
+  rw [filter_eq_spec_zero b as a0 mem _ hmem, filter_eq_spec_zero b as a0 mem _ hmem, fspec_take]
+
+/-! ### C04.8 normalisation in `__init__` -/
+
+/-- **C04.8** (`normalise_spec`): the constructor rewrites `num/den` by the common factor
+`z^p` (`p` = lowest denominator delay): every coefficient keeps its value and moves from delay
+`k + p` to delay `k`, and the denominator then starts at delay 0. -/
+theorem normalise_spec (num den : Terms K) (p : Int) (h : minKey den = some p) :
+    ∃ num' den', normalise num den = .ok (num', den') ∧ minKey den' = some 0 ∧
+      (∀ k, coefAt num' k = coefAt num (k + p)) ∧ (∀ k, coefAt den' k = coefAt den (k + p)) := by
+  refine ⟨shiftKeys p num, shiftKeys p den, normalise_ok num den p h, ?_, ?_, ?_⟩
+  · rw [minKey_shiftKeys, h]; simp
+  · intro k; exact coefAt_shiftKeys p num k
+  · intro k; exact coefAt_shiftKeys p den k
+
+/-- a denominator without any non-zero term cannot be normalised (Python: `min()` of an empty
+sequence ⇒ ValueError, at construction) -/
+theorem empty_denominator (num : Terms K) : normalise num ([] : Terms K) = .error .valueError := rfl
+
+/-- a numerator term left at a negative delay after normalisation ⇒ the call refuses (C04.4
+seen from the constructor arguments) -/
+theorem noncausal_after_normalise (num den : Terms K) (p : Int) (h : minKey den = some p)
+    (kv : Int × K) (hkv : kv ∈ num) (hlt : kv.1 < p) (mem : Mem K) (zero : K) (xs : List K) :
+    (do let (n, d) ← normalise num den; call n d mem zero xs) = .error .valueError := by
+  rw [normalise_ok num den p h]
+  apply noncausal
+  refine ⟨(kv.1 - p, kv.2), ?_, by simp; omega⟩
+  simp only [List.mem_append, shiftKeys, List.mem_map]
+  exact Or.inl ⟨kv, hkv, rfl⟩
+
 /-! ### non-vacuity -/
 
 /-- the `ZFilter` docstring: `ZFilter([1, 1], [1, -1])([1, 5, -4, -7, 9], memory=[3], zero=0)` -/
@@ -217,6 +282,24 @@ example : DiffEq [1, -1, 0, 3] (2 : ℚ) [1, -1, 0, 5] 0 [1, 2, 3, 4] [2, 4, 6]
   filter_satisfies_property _ _ _ _ _ _ (by norm_num) rfl (by simp)
 example : call [((0 : Int), (1 : ℚ)), (1, 1)] [(0, 1), (1, -1)] (Mem.iter [3]) 0 [1, 5, -4, -7, 9]
     = .ok [4, 10, 11, 0, 2] := by decide +kernel
+
+-- PENDING
+/-- Full statement not proved yet: the model pipeline from raw constructor arguments (sorted
+dictionary inserts, zero compaction, `values()`) equals the contract `specCall` written with
+plain look-ups, for every memory of sufficient length.  Today this equality is carried by the
+tie: the driver evaluates both sides on every generated case and the harness compares each with
+the real code. -/
+def filterCall_eq_specCall_pending : Prop :=
+  ∀ (numPairs denPairs : List (Int × K)) (mem : List K) (zero : K) (xs : List K),
+    (∀ n d, normalise (mkPoly numPairs) (mkPoly denPairs) = .ok (n, d) → (dense d).length - 1 ≤ mem.length) →
+    filterCall numPairs denPairs (Mem.iter mem) zero xs = specCall numPairs denPairs (Mem.iter mem) zero xs
+
+/-- Full statement not proved yet: compiling from the dense list (`values()`) produces the same
+summands as iterating the sparse `numdict` / `dendict` in `terms()` order, as the code does.
+Carried by the translator tie T3 (structural comparison with the captured source on every case). -/
+def compile_dense_eq_sparse_pending : Prop :=
+  ∀ (t : Terms K), (∀ kv ∈ t, 0 ≤ kv.1 ∧ kv.2 ≠ 0) → List.Pairwise (fun x y => x.1 < y.1) t →
+    numAtoms 0 (dense t) = (t.map (fun kv => numAtoms kv.1.toNat [kv.2])).flatten
 
 end ALV.Props.C04
 
